@@ -248,7 +248,7 @@ func (c *Ctx) BodySchema(label string) *Schema {
 		s := c.Schema(2, "request-body", "response-body", "response-body-default", "request-body-component", "response-body-component")
 		// a body that is an array of inline objects is named "Item" without a prefix:
 		// two of them in one spec collide (known finding C01-F10)
-		if s.Type == "array" && s.Items != nil && s.Items.Ref == "" && (s.Items.Type == "object" || s.Items.Type == "array") && !c.Allow("body:array-of-inline-object") {
+		if s.Type == "array" && s.Items != nil && s.Items.Ref == "" && (s.Items.Type == "object" || s.Items.Type == "array" || len(s.Items.AllOf)+len(s.Items.OneOf) > 0) && !c.Allow("body:array-of-inline-object") {
 			continue
 		}
 		// an inline body that is a pure map (object without properties) is encoded with
